@@ -246,5 +246,6 @@ func checkC37(w *World, r *Run) {
 		rule := r.Rule("adapter-options-built-whenever-a-value-exists", "F1", "the upload adapter leaves the storage options nil only on paths that established tags, metadata and storage class to be absent", 3)
 		checkOptionsGuard(w, r, rule, relMigrator)
 	}
+	checkMigratorEmptyMetadata(w, r)
 	r.NotCovered("byte-for-byte content equality; Expires values that do not parse as HTTP dates (dropped by parseExpires); versions, delete markers and pending uploads of the source (only current objects are migrated by design)")
 }
